@@ -101,7 +101,9 @@ func propC01(c *Ctx) {
 	}), "(*tcp.endpoint).readyToRead", "(*tcp.endpoint).Write", "(*tcp.endpoint).Shutdown", "(*tcp.sender).sendData", "(*tcp.sender).handleWrite", "(*tcp.endpoint).handleWrite", "(*tcp.endpoint).handleClose", "(*tcp.segmentQueue).enqueue", "(*tcp.endpoint).protocolMainLoop")
 	// rcvList specifically: only readyToRead
 	var rcvPush []ssa.Instruction
-	for _, in := range c.CallSites(func(s string) bool { return strings.HasPrefix(s, "(*tcp.segmentList).Push") || strings.HasPrefix(s, "(*tcp.segmentList).Insert") }) {
+	for _, in := range c.CallSites(func(s string) bool {
+		return strings.HasPrefix(s, "(*tcp.segmentList).Push") || strings.HasPrefix(s, "(*tcp.segmentList).Insert")
+	}) {
 		if strings.HasSuffix(Term(CallArgs(in.(ssa.CallInstruction))[0]), ".rcvList") {
 			rcvPush = append(rcvPush, in)
 		}
